@@ -33,6 +33,9 @@ def jobs(ctx):
     for lo in range(0, top, stepv):
         out.append("round lo=%d hi=%d" % (lo, lo + stepv))
     out.append("roundpow")
+    # the same codec calls on contexts that are in use: in the middle of writing a file (ctx=1), with a file open for reading (ctx=2)
+    for cm in (1, 2):
+        out += ["roundpow ctx=%d" % cm, "round lo=0 hi=20000 ctx=%d" % cm, "decode first=0-255 maxlen=2 offsets=0,1,5 ctx=%d" % cm, "beyond ctx=%d" % cm]
     return out
 
 
